@@ -526,14 +526,16 @@ def judge(ctx, c, r, stats):
         what = f"{r['prop'][0]}{' (+%d more)' % (len(r['prop']) - 1) if len(r['prop']) > 1 else ''} :: {describe(c)}"
         finding = None
         if c["why"] and (not c["ok"] or c["raised"]):
-            finding = c["why"][0]
+            # the deviation that explains the failing clause
+            others = [w for w in c["why"] if w != "subgraph_name_clash"]
+            finding = "subgraph_name_clash" if (list(c.get("fails", [])) == ["ssa"] or not others) else others[0]
             stats["explained"] += 1
         ctx.report(dict(case, real=r.get("real"), all=r["prop"]), what, finding=finding)
         return
     # the real code satisfies the property here; compare with the model
     mism = []
     tolerated = False
-    if (not c["ok"]) and not c["raised"] and c["why"] == ["subgraph_name_clash"] and strict_name_clash(r["real"]):
+    if list(c.get("fails", [])) == ["ssa"] and "subgraph_name_clash" in c["why"] and strict_name_clash(r["real"]):
         # the predicted duplicate (a body name that the enclosing graph defines later) is there; the ONNX checker and, for
         # this shape of body, ONNX Runtime tolerate it
         tolerated = True
